@@ -582,8 +582,14 @@ func compareModel(cs *confStats, exp M, step M, post M, conc map[string][]byte, 
 				if l, ok := v.([]any); ok && len(l) > 0 {
 					last, _ := l[len(l)-1].(M)
 					got[b] = fmt.Sprintf("%d/%v", len(l), last["kind"])
+					if os.Getenv("VERIF_DEBUG") == "2" && last["ok"] == false {
+						fmt.Fprintln(os.Stderr, "BLOG-RAW", last["raw"])
+					}
 				}
 			}
+		}
+		if os.Getenv("VERIF_DEBUG") == "2" && fmt.Sprint(want) != fmt.Sprint(got) {
+			fmt.Fprintln(os.Stderr, "BLOG-DIFF want", want, "got", got)
 		}
 		if len(want) != len(got) {
 			diffs = append(diffs, "blog")
